@@ -22,7 +22,7 @@ def FLOORS(tier):
     q = tier == "quick"
     f = {"expression-operand": 600 if q else 20000, "is_solution_valid-checks": 20000 if q else 10 ** 6,
          "second-constraint-on-model": 300, "shared-operand-object": 400, "lam-positional": 100,
-         "between-gates:trivial-le": 30, "between-gates:round(-1)": 30, "between-gates:copy": 30}
+         "between-gates:trivial-le": 30, "between-gates:round(-1)": 30, "between-gates:copy": 30, "other-constraint-kind-first": 150}
     for m in METHODS:
         f["method:" + m] = 60 if q else 2000
         g = m.replace("eq_", "")
@@ -39,6 +39,21 @@ def case(ctx, rng, idx):
     nontriv = False
     # operand objects that may be handed to several gates of the history (and several times to one gate): a gate must
     # not change what its operands mean
+    watched = []          # (model nobody edits any more, its validity table, its recorded constraints)
+
+    def validity_table(M):
+        return [bool(M.is_solution_valid(ref.assignment(i, labs, False))) for i in range(1 << len(labs))]
+    if len(labs) >= 2 and rng.random() < 0.2:
+        # the model already carries a constraint of another kind (an "at most one of two" inequality: no ancillas)
+        import warnings
+        l1, l2 = rng.sample(labs, 2)
+        with warnings.catch_warnings():
+            warnings.simplefilter("ignore")
+            H.add_constraint_le_zero({(l1,): 1, (l2,): 1, (): -1}, lam=rng.choice([1, 2]))
+        hist.append(["add_constraint_le_zero", "%r + %r - 1" % (l1, l2)])
+        ctx.cat("other-constraint-kind-first")
+        if H.num_ancillas:
+            return
     pool = [_sat.expr(rng, labs, rng.choice([0, 1, 1, 2]), max_arity=2) for _ in range(rng.randint(2, 4))]
     pool_snap = [dict(o[0]) if isinstance(o[0], dict) else None for o in pool]
     for ci in range(rng.choice([1, 1, 2, 3])):
@@ -140,6 +155,9 @@ def case(ctx, rng, idx):
                     okb, _ = ctx.call("add_constraint_ge_zero", H.add_constraint_ge_zero, {(rng.choice(labs),): -1, (): rng.choice([1, 3])}, lam=lam, _w=w)
                 elif how == "copy":
                     okb, H2 = ctx.call("copy", H.copy, _w=w)
+                    if okb:
+                        # the history continues on the copy; the original stays as it is
+                        watched.append((H, validity_table(H), {k: [dict(p) for p in v] for k, v in H.constraints.items()}))
                     H = H2 if okb else H
                 else:
                     nd = int(how[6:-1])
@@ -162,6 +180,11 @@ def case(ctx, rng, idx):
                     ctx.violation("%s:is_solution_valid-changed" % how, "is_solution_valid(%r) was %r, is now %r" % (x, bool(Hb.is_solution_valid(x)), bool(H.is_solution_valid(x))), {"history": hist})
                     return
             ctx.count("is_solution_valid-checks", 1 << len(labs))
+    for M0, tab0, cons0 in watched:
+        ctx.count("untouched-original-checks")
+        if validity_table(M0) != tab0 or {k: [dict(p) for p in v] for k, v in M0.constraints.items()} != cons0:
+            ctx.violation("copy:original-follows-the-copy", "gates added to a copy changed what the original records / reports as valid", {"history": hist})
+            return
     if nontriv:
         ctx.nontrivial(hist)
     ctx.sample({"history": hist}, limit=3)
